@@ -291,6 +291,7 @@ def dec_new(num, scale):
         if scale > 0:
             s = s.rjust(scale + 1, '0'); s = s[:-scale] + '.' + s[-scale:]
         return dec_const(('-' if num < 0 else '') + s)
+    if is_conc_int(scale): return dec_lit_sym(to_int(num) if is_sym(num) else num, scale)      # Decimal::new(m, s) is exactly m * 10^-s: the canonical dec_of(m, s)
     return ('dec', uf('dec_new', z3.IntSort(), z3.IntSort(), DecSort)(to_int(num) if is_sym(num) else z3.IntVal(num), to_int(scale) if is_sym(scale) else z3.IntVal(scale)))
 
 
@@ -409,6 +410,7 @@ def _(e, st, raw, n, a, m):
     if f: return [(T, ('tailcall', f, a, None))]
     if norm_ty(src) == norm_ty(dst): return [(T, a[0])]
     if dst == 'f64' and src in INT_TYPES: return [(T, int_to_f64(a[0], src))]
+    if dst.endswith('Decimal') and src in INT_TYPES: return [(T, dec_new(a[0], 0))]
     raise Unsupported('Into/From %s -> %s' % (src, dst))
 
 
@@ -913,6 +915,29 @@ def _(e, st, raw, n, a, m):
     x, y = a[0], a[1]
     if x[0] != 'pipe' or y[0] != 'pipe' or x[2] or y[2]: raise Unsupported('chain of adaptors that already carry stages')
     return [(T, ('pipe', x[1] + y[1], ()))]
+
+
+@summary(r'^core::str::<impl str>::contains\b')
+def _(e, st, raw, n, a, m):
+    chars = sv(e, st, a[0])[1]; pat = a[1]
+    if isinstance(pat, tuple):
+        pat = sv(e, st, pat)[1]
+        if len(pat) != 1: raise Unsupported('str::contains with a multi-character pattern')
+        pat = pat[0]
+    return [(T, b_or(*[ch_eq(c, pat) for c in chars]) if chars else False)]
+
+
+@summary(r'^<\{closure@[^}]*\} as Fn(?:Mut|Once)?<.*>>::call(?:_mut|_once)?$')
+def _(e, st, raw, n, a, m):
+    clo = a[0]
+    while isinstance(clo, tuple) and clo and clo[0] == 'ref': clo = e.rd(st, clo)
+    args = a[1]
+    if not (isinstance(args, tuple) and args and args[0] == 'tuple'): raise Unsupported('closure call with ' + str(args)[:40])
+    if not (clo[0] == 'closure' or (clo[0] == 'zst' and 'closure@' in clo[1])): raise Unsupported('call of ' + str(clo)[:40])
+    body = e.closure_body(('closure', clo[1]))
+    # Fn::call / FnMut::call_mut hand the closure by reference, FnOnce::call_once by value: the body's first parameter has the matching type
+    self_arg = a[0] if not n.endswith('call_once') else clo
+    return [(T, ('tailcall', body, [self_arg] + list(args[1]), None))]
 
 
 @summary(r'^core::str::<impl str>::is_ascii$')
